@@ -431,6 +431,17 @@ pub fn check_strict(
 
   // ---- C14: cold cross-checks between a, b (equal by construction), c ------
   if mode == StrictMode::C14 && scn.objects.len() >= 3 {
+    // directed probe, the same in every case: a user-defined newtype source
+    // compared behind `dyn` with the field it wraps
+    match std::panic::catch_unwind(crate::spec::aliased_newtype_probe) {
+      Ok(Some(d)) => violations.push(Violation {
+        kind: "eq_without_equal_hash".into(),
+        op_class: "eq".into(),
+        detail: d,
+      }),
+      Ok(None) => counters.inc("probe:aliased_newtype_compared_behind_dyn"),
+      Err(_) => {}
+    }
     let ans = |cold: &mut dyn FnMut(&Op, &mut Counters) -> Answer, counters: &mut Counters, obj: usize, kind: OpKind| {
       cold(&Op { obj, kind }, counters)
     };
